@@ -3,6 +3,7 @@ package props
 import (
 	"fmt"
 	"sort"
+	"time"
 
 	"github.com/google/go-tdx-guest/verify"
 	"verifharness/mon"
@@ -29,6 +30,8 @@ func RunDefaultRootTwins(x *mon.Ctx) {
 	if t == nil || len(t.Buckets) == 0 {
 		return
 	}
+	t0 := time.Now()
+	defer func() { x.Extra["default_root_twins_seconds"] = time.Since(t0).Seconds() }()
 	const class = "default-root-twin"
 	if !mon.HookBuilt {
 		x.Extra["default_root_twins"] = "inconclusive: worker built without the verif hook (the hook file no longer compiles against this tree?)"
@@ -96,30 +99,42 @@ func RunDefaultRootTwins(x *mon.Ctx) {
 			}
 			x.Note(class, fmt.Sprintf("root%d/%s/%s/%s/%s", bi, b[i].Case.Class, b[i].Case.Param, c.Form, lvl(c)), out.Accepted, out.Panic != "", true)
 		})
-		// the bucket through one re-used options value, forwards then backwards
-		shared := &verify.Options{}
-		order := make([]int, 0, 2*len(b))
-		for i := range b {
-			order = append(order, i)
+		// the bucket through re-used options values, forwards then backwards (the way back is a history of its own). A bucket
+		// that holds a designed sequence (TwinKeep) is one history; a large sampled bucket is split into up to eight strided
+		// histories that run side by side.
+		lanes := 1
+		keep := false
+		for _, tw := range b {
+			keep = keep || tw.Case.TwinKeep
 		}
-		for i := len(b) - 1; i >= 0; i-- {
-			order = append(order, i)
+		if !keep && len(b) >= 64 {
+			lanes = 8
 		}
-		for n, i := range order {
-			if n == len(b) {
-				shared = &verify.Options{} // the way back is a history of its own
+		x.Each(lanes, func(lane int) {
+			var idx []int
+			for i := lane; i < len(b); i += lanes {
+				idx = append(idx, i)
 			}
-			if bad[i] {
-				continue
+			order := append([]int{}, idx...)
+			for k := len(idx) - 1; k >= 0; k-- {
+				order = append(order, idx[k])
 			}
-			c := cases[i]
-			x.Crumb(n, "verify", c)
-			out := mon.RunVerifyShared(c, shared)
-			if out.Panic != "" || out.Accepted != b[i].Accepted {
-				bad[i] = true
-				x.Violation(class, fmt.Sprintf("root%d/history/%s/%s", bi, b[i].Case.Class, b[i].Case.Param), fmt.Sprintf("default root of trust, options value re-used over %d earlier cases of this PKI: accepted=%v (%s%s); a fresh options value gave accepted=%v", n, out.Accepted, out.Err, out.Panic, b[i].Accepted), "verify", c)
+			shared := &verify.Options{}
+			for n, i := range order {
+				if n == len(idx) {
+					shared = &verify.Options{}
+				}
+				if bad[i] {
+					continue
+				}
+				c := cases[i]
+				x.Crumb(lane, "verify", c)
+				out := mon.RunVerifyShared(c, shared)
+				if out.Panic != "" || out.Accepted != b[i].Accepted {
+					x.Violation(class, fmt.Sprintf("root%d/history/%s/%s", bi, b[i].Case.Class, b[i].Case.Param), fmt.Sprintf("default root of trust, options value re-used over %d earlier cases of this PKI: accepted=%v (%s%s); a fresh options value gave accepted=%v", n%len(idx), out.Accepted, out.Err, out.Panic, b[i].Accepted), "verify", c)
+				}
 			}
-		}
+		})
 		restore()
 		ran += len(b)
 	}
